@@ -159,6 +159,21 @@ def has_null(desc):
     return '["null"' in json.dumps(desc, default=str)
 
 
+def drop_computed(m):
+    """Forget every computed value of the live model (inputs and ItemSpaces stay).  The values the read-back
+    is compared with must be what the live model COMPUTES now: a value cached before a later edit can be
+    stale where modelx tracks no dependency (a formula reading `len(space.cells)`: adding a cells to a base
+    clears nothing) - C02's subject, and caches are not saved."""
+    def rec(s):
+        s.clear_cells(clear_input=False, recursive=False)
+        for it in list(s._named_itemspaces.values()):
+            rec(it)
+        for sub in s.named_spaces.values():
+            rec(sub)
+    for s in m.spaces.values():
+        rec(s)
+
+
 def dry_run(prog):
     """apply ops and all edits, no file written -> (rejected base-op indices, rejected (step, edit) pairs,
     index of the first step after whose edits a value is a deleted object or None)"""
@@ -266,6 +281,7 @@ def run_history(prog, out, stats, model=True, prepared=False):
                     return
             with quiet():
                 desc = base.describe(m)
+                drop_computed(m)
                 vals = base.evaluate_all(m)
                 desc_b = base.describe(m)
             if desc != desc_b:
